@@ -561,8 +561,47 @@ macro_rules! pex {
             _ => pex!(@small $name, $p, $t, $rng, $out),
         }
     }};
+    // curve points with special coordinates as starting operands
+    (@init p256, $pts:expr) => {{
+        // the two points with x = 0 (the x-only arithmetic of truncated verification has a branch for them)
+        for tag in [2u8, 3u8] {
+            let mut e = [0u8; 33];
+            e[0] = tag;
+            if let Some(p) = Point::decode(&e) {
+                $pts.push(p);
+            }
+        }
+    }};
+    (@init $other:tt, $pts:expr) => {{}};
+    (@proj $F:ty, $name:expr, $p:expr, $t:expr, $rng:expr, $out:expr) => {{
+        // projective coordinates are one of several admissible representations: only what comes back through
+        // set_projective / from_projective / set_affine (status words, encodings) is transcript material
+        $out.probe("probe.apitrace.projective_affine_round_trips");
+        let (x, y, z) = $p.to_projective();
+        let lam = <$F>::from_u64(word($t, $rng) | 1);
+        let mut a = Point::NEUTRAL;
+        let s1 = a.set_projective(x * lam, y * lam, z * lam);
+        let mut b = Point::NEUTRAL;
+        let s2 = b.set_projective(x, y + <$F>::ONE, z);
+        let mut c = Point::NEUTRAL;
+        let s3 = c.set_projective(x, y, <$F>::ZERO);
+        let d = Point::from_projective(x * lam, y * lam, z * lam);
+        let (ax, ay, ast) = $p.to_affine();
+        let mut e = Point::NEUTRAL;
+        let s4 = e.set_affine(ax, ay);
+        let mut f = Point::NEUTRAL;
+        let s5 = f.set_affine(ax + <$F>::ONE, ay);
+        for (nm, st) in [("set_projective", s1), ("set_projective", s2), ("set_projective", s3), ("set_affine", s4), ("set_affine", s5), ("to_affine", ast)] {
+            $out.status(ENG, nm, st);
+        }
+        $out.ev(format_args!("{} projective: scaled {:#x} {} ; off-curve {:#x} {} ; Z=0 {:#x} {} ; from_projective {:?} ; set_affine {:#x} {} ; off {:#x} {}", $name,
+            s1, hex(&a.encode_compressed()), s2, hex(&b.encode_compressed()), s3, hex(&c.encode_compressed()), d.map(|q| hex(&q.encode_compressed())),
+            s4, hex(&e.encode_compressed()), s5, hex(&f.encode_compressed())));
+        a
+    }};
     (p256, $name:expr, $p:expr, $q:expr, $s:expr, $u:expr, $t:expr, $rng:expr, $out:expr) => {{
-        match $t.usize(3) {
+        match $t.usize(4) {
+            3 => pex!(@proj crrl::field::GFp256, $name, $p, $t, $rng, $out),
             0 => {
                 let (x, y, st) = $p.to_affine();
                 status!($out, concat!($name, ".to_affine"), st);
@@ -587,7 +626,8 @@ macro_rules! pex {
         }
     }};
     (sec, $name:expr, $p:expr, $q:expr, $s:expr, $u:expr, $t:expr, $rng:expr, $out:expr) => {{
-        match $t.usize(2) {
+        match $t.usize(3) {
+            2 => pex!(@proj crrl::field::GFsecp256k1, $name, $p, $t, $rng, $out),
             0 => {
                 let (x, y, st) = $p.to_affine();
                 status!($out, concat!($name, ".to_affine"), st);
@@ -648,6 +688,7 @@ macro_rules! point_machine {
         fn $fname(t: &mut Tape, rng: &mut SimRng, out: &mut RunOut, nops: usize) {
             use crrl::$m::{Point, Scalar};
             let mut pts: Vec<Point> = vec![Point::NEUTRAL, Point::BASE];
+            pex!(@init $pk, pts);
             let mut scs: Vec<Scalar> = vec![Scalar::ZERO, Scalar::ONE, Scalar::ZERO - Scalar::ONE];
             for _ in 0..2 + t.usize(3) {
                 let l = len_biased(t, $slen);
